@@ -147,66 +147,92 @@ theorem stepsSpec_const (c H : Nat) : StepsSpec (fun _ => c) H [] := by
   simp
 
 /-- `Propagated::steps_iter`: if `l` are the steps of `N` up to `H + J` (possibly with a
-leading 0) and something arrives in a window of length `J + 1`, then
-`1 :: (l.filter (· > J + 1)).map (· - J)` are the steps of `δ ↦ if δ = 0 then 0 else N (δ + J)`
-up to `H` (for `1 ≤ H`). -/
+leading 0), then `(if 0 < N (1 + J) then [1] else []) ++ (l.filter (· > J + 1)).map (· - J)`
+are the steps of `δ ↦ if δ = 0 then 0 else N (δ + J)` up to `H` (for `1 ≤ H`): the step at
+`δ = 1` is emitted iff something can arrive in a window of length `1 + J`. -/
 theorem stepsSpec_prop (N : Nat → Nat) (H J : Nat) (l : List Nat) (hH : 1 ≤ H)
-    (hm : MonoN N) (hl : StepsSpec0 N (H + J) l) (hpos : 0 < N (J + 1)) :
+    (hm : MonoN N) (hl : StepsSpec0 N (H + J) l) :
     StepsSpec (fun d => if d = 0 then 0 else N (d + J)) H
-      (1 :: ((l.filter (fun x => decide (x > J + 1))).map (· - J))) := by
+      ((if 0 < N (1 + J) then [1] else []) ++
+        ((l.filter (fun x => decide (x > J + 1))).map (· - J))) := by
   have _ := hm -- monotonicity is not needed for this direction-free characterisation
-  constructor
-  · rw [List.pairwise_cons]
-    constructor
-    · intro z hz
-      rw [List.mem_map] at hz
-      obtain ⟨x, hx, rfl⟩ := hz
+  -- the shifted tail: strictly increasing, all elements `> 1`
+  have htail_gt : ∀ z ∈ (l.filter (fun x => decide (x > J + 1))).map (· - J), 1 < z := by
+    intro z hz
+    rw [List.mem_map] at hz
+    obtain ⟨x, hx, rfl⟩ := hz
+    rw [List.mem_filter] at hx
+    have := of_decide_eq_true hx.2
+    omega
+  have htail_pw : ((l.filter (fun x => decide (x > J + 1))).map (· - J)).Pairwise (· < ·) := by
+    rw [List.pairwise_map]
+    have hf : (l.filter (fun x => decide (x > J + 1))).Pairwise (· < ·) := hl.1.filter _
+    have hall : ∀ x ∈ l.filter (fun x => decide (x > J + 1)), x > J + 1 := by
+      intro x hx
       rw [List.mem_filter] at hx
-      have := of_decide_eq_true hx.2
-      omega
-    · rw [List.pairwise_map]
-      have hf : (l.filter (fun x => decide (x > J + 1))).Pairwise (· < ·) := hl.1.filter _
-      have hall : ∀ x ∈ l.filter (fun x => decide (x > J + 1)), x > J + 1 := by
-        intro x hx
-        rw [List.mem_filter] at hx
-        exact of_decide_eq_true hx.2
-      refine List.Pairwise.imp_of_mem ?_ hf
-      intro a b ha hb hab
-      have := hall a ha
-      have := hall b hb
-      omega
-  · intro δ
-    rw [List.mem_cons, List.mem_map]
+      exact of_decide_eq_true hx.2
+    refine List.Pairwise.imp_of_mem ?_ hf
+    intro a b ha hb hab
+    have := hall a ha
+    have := hall b hb
+    omega
+  -- the shifted tail contains exactly the steps `δ ≥ 2`
+  have htail_mem : ∀ δ, δ ∈ (l.filter (fun x => decide (x > J + 1))).map (· - J) ↔
+      (2 ≤ δ ∧ δ ≤ H ∧
+        (if δ - 1 = 0 then 0 else N (δ - 1 + J)) < (if δ = 0 then 0 else N (δ + J))) := by
+    intro δ
+    rw [List.mem_map]
     constructor
-    · rintro (rfl | ⟨x, hx, rfl⟩)
-      · refine ⟨Nat.le_refl _, hH, ?_⟩
-        show (if (1 - 1 : Nat) = 0 then 0 else N (1 - 1 + J)) < (if (1 : Nat) = 0 then 0 else N (1 + J))
-        rw [if_pos (by omega), if_neg (by omega), Nat.add_comm]
-        exact hpos
-      · rw [List.mem_filter] at hx
-        have hgt : x > J + 1 := of_decide_eq_true hx.2
-        have hx' := (hl.2 x (by omega)).1 hx.1
-        refine ⟨by omega, by omega, ?_⟩
-        show (if (x - J - 1) = 0 then 0 else N (x - J - 1 + J)) < (if (x - J) = 0 then 0 else N (x - J + J))
-        rw [if_neg (by omega), if_neg (by omega)]
-        have e1 : x - J - 1 + J = x - 1 := by omega
-        have e2 : x - J + J = x := by omega
-        rw [e1, e2]
-        exact hx'.2
+    · rintro ⟨x, hx, rfl⟩
+      rw [List.mem_filter] at hx
+      have hgt : x > J + 1 := of_decide_eq_true hx.2
+      have hx' := (hl.2 x (by omega)).1 hx.1
+      refine ⟨by omega, by omega, ?_⟩
+      rw [if_neg (by omega), if_neg (by omega)]
+      have e1 : x - J - 1 + J = x - 1 := by omega
+      have e2 : x - J + J = x := by omega
+      rw [e1, e2]
+      exact hx'.2
+    · rintro ⟨h1, h2, h3⟩
+      refine ⟨δ + J, ?_, by omega⟩
+      rw [List.mem_filter]
+      refine ⟨?_, decide_eq_true (by omega)⟩
+      rw [hl.2 (δ + J) (by omega)]
+      refine ⟨by omega, ?_⟩
+      rw [if_neg (by omega), if_neg (by omega)] at h3
+      have e1 : δ + J - 1 = δ - 1 + J := by omega
+      rw [e1]
+      exact h3
+  -- whether `1` is a step of the propagated curve
+  have hone : (if (1 - 1 : Nat) = 0 then 0 else N (1 - 1 + J)) <
+      (if (1 : Nat) = 0 then 0 else N (1 + J)) ↔ 0 < N (1 + J) := by
+    rw [if_pos (by omega), if_neg (by omega)]
+  by_cases hpos : 0 < N (1 + J)
+  · rw [if_pos hpos, List.cons_append, List.nil_append]
+    constructor
+    · rw [List.pairwise_cons]
+      exact ⟨htail_gt, htail_pw⟩
+    · intro δ
+      rw [List.mem_cons, htail_mem]
+      constructor
+      · rintro (rfl | ⟨h1, h2, h3⟩)
+        · exact ⟨Nat.le_refl _, hH, hone.2 hpos⟩
+        · exact ⟨by omega, h2, h3⟩
+      · rintro ⟨h1, h2, h3⟩
+        by_cases hδ : δ = 1
+        · exact Or.inl hδ
+        · exact Or.inr ⟨by omega, h2, h3⟩
+  · rw [if_neg hpos, List.nil_append]
+    refine ⟨htail_pw, fun δ => ?_⟩
+    rw [htail_mem]
+    constructor
+    · rintro ⟨h1, h2, h3⟩
+      exact ⟨by omega, h2, h3⟩
     · rintro ⟨h1, h2, h3⟩
       by_cases hδ : δ = 1
-      · exact Or.inl hδ
-      · right
-        refine ⟨δ + J, ?_, by omega⟩
-        rw [List.mem_filter]
-        refine ⟨?_, decide_eq_true (by omega)⟩
-        rw [hl.2 (δ + J) (by omega)]
-        refine ⟨by omega, ?_⟩
-        have h3' : (if (δ - 1) = 0 then 0 else N (δ - 1 + J)) < (if δ = 0 then 0 else N (δ + J)) := h3
-        rw [if_neg (by omega), if_neg (by omega)] at h3'
-        have e1 : δ + J - 1 = δ - 1 + J := by omega
-        rw [e1]
-        exact h3'
+      · subst hδ
+        exact absurd (hone.1 h3) hpos
+      · exact ⟨by omega, h2, h3⟩
 
 /-- cutting at `H = 0` -/
 theorem stepsSpec_zero (N : Nat → Nat) : StepsSpec N 0 [] := by
